@@ -68,7 +68,110 @@ def c17(tier, seed):
     return r
 
 
+def _only(merged, prop):
+    merged["violations"] = [v for v in merged["violations"] if v["class"].get("prop") == prop]
+    return merged
+
+
+GRAPH_RULE = ("dependency-graph corpus (50 root types: one per edge kind - field, inline, flatten, Option/Vec/array/tuple/map key/map value/Box, generic argument (plain, inlined, flattened, nested), parameter default, field/variant/container `as`, type override, struct tag, newtype/tuple structs, self-reference, cycle, 17 enums covering payload kinds x 4 representations x inline/skip/flatten) "
+              "x every assignment of run-time placements {default, d/, s.ts, d/x.ts, ../up/, d/e/} to the type keys (quick 864, thorough 9720 assignments) x base-directory spellings/entry points (quick 2, thorough 7) x pre-existing contents (quick 1, thorough 3) x import-esm {off,on}; one real export_all/export_all_to per case; distinct = distinct (root, locations of reachable types)")
+
+
+def _graph(tier, prop):
+    r_all = []
+    for feats in ((), ("import-esm",)):
+        e3 = build_e3(feats)
+        args = ["graph"] + (["--thorough"] if tier == "thorough" else [])
+        m = run_sliced(e3, args, slices=64 if tier == "thorough" else 16)
+        r_all.append((feats, _only(m, prop)))
+    return r_all
+
+
+def c03(tier, seed):
+    r = Result("exploration", GRAPH_RULE + "; oracle: every written file parsed by swc; free names of its declarations (minus same-file declarations, bound parameters, Array/Record) == imported names, each once; every specifier resolves (independent resolver) to a file written by the same export that exports the name; no self-import; no unused import",
+               "exhaustive enumeration of dependency graphs x placements x base spellings on the real exporter, closure checked with an independent parser and resolver")
+    for feats, m in _graph(tier, "C03"):
+        r.absorb(m, ("esm." if feats else "cjs."))
+    r.assumptions = ["swc_ecma_parser is the TypeScript grammar", "tsmodel::paths is the TypeScript relative-module rule",
+                     "`#[ts(type = ..)]` overrides only name built-in types in the corpus (a user-written type string is the user's responsibility)"]
+    return r
+
+
+def c11(tier, seed):
+    r = Result("exploration", GRAPH_RULE + "; oracle: snapshot (bytes + inode + mtime) before/after: the set of created or modified paths == { base + loc(t) | t reachable by name from the root's declaration (swc free names, transitively) }, loc computed from the placement description (default / directory form / file form), everything else untouched, no stray directories, and T::output_path() == loc",
+               "exhaustive enumeration of dependency graphs x export_to forms x base settings on the real exporter with before/after directory snapshots")
+    for feats, m in _graph(tier, "C11")[:1]:
+        r.absorb(m)
+    r.assumptions = ["reachability is computed from the free names of the real decl() strings (independent of visit_dependencies)",
+                     "tmpfs mtime granularity is nanoseconds; inode+mtime+bytes identify an untouched file"]
+    return r
+
+
+def c08(tier, seed):
+    r = Result("exploration",
+               "every ordered pair (importing file, imported file) of relative paths built from <= D directory components over {a, b, a.b, x.ts, ts, ., ..} followed by a file name from {A.ts, b.c.ts, x.ts.ts, ts.ts, Ats} x base in {./bindings, rel/dir, /abs/dir, ./x/../y, /b, bindings/, /} x cwd depth {1,3} x import-esm {off,on}, through the real import_path(); oracle: independent lexical resolver (specifier syntax + resolution == dependency file); plus the specifiers of every real import statement written by the graph corpus. distinct = distinct relative path shapes",
+               "exhaustive enumeration of path pairs through the real import_path against an independent resolver")
+    depth = 3 if tier == "quick" else 4
+    for feats in ((), ("import-esm",)):
+        e3 = build_e3(feats)
+        m = run_sliced(e3, ["paths", "--depth", str(depth)], slices=64)
+        m["distinct"] = {f"{feats}:{x}" for x in m["distinct"]}
+        r.absorb(m, ("esm." if feats else "cjs."))
+    for feats, m in _graph("quick", "C08"):
+        m["distinct"] = set()
+        r.absorb(m, ("graph-esm." if feats else "graph-cjs."))
+    r.extra["bounds"] = {"directory_components": depth}
+    r.assumptions = ["tsmodel::paths is the TypeScript relative-module rule (./x -> x.ts; x.js -> x.ts under ESM)",
+                     "the Windows separator branch cannot execute on this target",
+                     "an imported file whose name does not end in .ts has no correct specifier and is excluded from the resolution clause (counted)"]
+    return r
+
+
+def c13(tier, seed):
+    e3 = build_e3()
+    r = Result("model_checking",
+               "owned nondeterminism, explored exhaustively on the implementation: (a) order of the statements in every generated visit_dependencies body (hook H2): all permutations for bodies <= 5 statements, rotations+reversals above, for every corpus type (50 graph roots x 3 placement configurations, 9 universe types, 13 shared-file types), each run twice; (b) every order of every k-subset of universe roots exported with export_all (k=3 quick, 4 thorough) x forward/reversed visits; (c) every interleaving of 2-3 exporting threads up to the preemption bound (C05's scheduler). Oracle: identical trees and identical name/decl/export_to_string/dependency sets, equal to the reference model. distinct = distinct subjects",
+               "exhaustive enumeration of visit orders, root orders and preemption-bounded thread schedules on the real exporter")
+    args = ["determ"] + (["--thorough"] if tier == "thorough" else [])
+    m = run_sliced(e3, args, slices=32)
+    r.absorb(m, "determ.")
+    bound = 2 if tier == "quick" else 3
+    s = run_sliced(e3, ["sched", "--bound", str(bound)] + (["--thorough"] if tier == "thorough" else []))
+    r.absorb(s, "sched.")
+    if tier == "thorough":
+        r.extra["fresh_compilation_cross_check"] = fresh_compile_crosscheck(r)
+    r.traces_validated = r.evaluations
+    r.assumptions = TRUST_COMMON + [
+        "hash seeds of independent compiler processes and libtest's real thread pool cannot be owned; the thorough tier samples them as a labelled cross-check (rebuild twice, compare dumps) that decides nothing",
+        "under the hook build the generated visit order is harness-chosen (H2); the guard-off build keeps the macro's HashSet order",
+    ]
+    return r
+
+
+def fresh_compile_crosscheck(r):
+    """Sampling, labelled: force fresh macro processes (new hash seeds) by touching the macro crate,
+    rebuild, dump every string-returning function and a full export tree, compare."""
+    import os, subprocess
+    dumps = []
+    for i in range(3):
+        os.utime(os.path.join(driver.REPO, "macros", "src", "lib.rs"))
+        e3 = build_e3()
+        p = subprocess.run([e3, "dump"], stdout=subprocess.PIPE, stderr=subprocess.PIPE, text=True, cwd="/")
+        if p.returncode != 0:
+            raise driver.Machinery("dump failed: " + p.stderr[-2000:])
+        dumps.append(p.stdout)
+    same = all(d == dumps[0] for d in dumps)
+    if not same:
+        r.violations.append({"class": {"check": "fresh-compilation-changes-output"}, "count": 1,
+                             "examples": [{"dump_lengths": [len(d) for d in dumps]}]})
+    return {"kind": "sampling (labelled): 3 fresh macro processes", "identical": same, "dump_bytes": len(dumps[0])}
+
+
 CHECKS = {
+    "C03": c03,
+    "C08": c08,
+    "C11": c11,
+    "C13": c13,
     "C05": c05,
     "C06": c06,
     "C17": c17,
